@@ -62,10 +62,13 @@ def random_history(out, rng, maxlen, kchoices):
         if e["a"] == "Solve":
             op["k"] = rng.choice(kchoices)
         ops.append(op)
+        s = e["d"]
         # setup() is not in the property's alphabet; the usual explicit call right after binding the first definition
         if e["a"] == "SetPdef" and not any(o["a"] in ("Solve", "Setup") for o in ops) and rng.random() < 0.4:
-            ops.append({"a": "Setup"})
-        s = e["d"]
+            su = [x for x in out.get(s, []) if x["a"] == "Setup"]
+            if su:
+                ops.append({"a": "Setup"})
+                s = su[0]["d"]
         if e["a"] == "Destroy":
             break
     if not ops or ops[-1]["a"] != "Destroy":
